@@ -72,6 +72,17 @@ void InvariantMixedDiscreteDistribution::updateDistribution()
   // if invariant_ is between 2 values of dist_, bounds_ are set in the
   // middle of the 3 values
 
+  if (distribution_.size() == distNCat)
+  {
+    // The invariant is (equivalent to) a class value of the nested distribution: no class is
+    // added, the bounds are those of the nested distribution.
+    for (size_t i = 0; i + 1 < distNCat; i++)
+    {
+      bounds_.push_back(dist_->getBound(i));
+    }
+    return;
+  }
+
   bool nv = true;
 
   double a = dist_->getCategory(0), b;
